@@ -302,6 +302,17 @@ impl<H: MsgHeader> Endpoint<H> {
                 iov_base: rbuf[data_read..].as_mut_ptr() as *mut c_void,
                 iov_len: len - data_read,
             }];
+            #[cfg(feature = "verif-hooks")]
+            // SAFETY: Safe because we own rbuf and it's safe to fill a byte array with arbitrary
+            // data.
+            let hooked = unsafe { crate::verif::recv(&self.sock, &mut iovs, &mut []) };
+            #[cfg(feature = "verif-hooks")]
+            let (bytes, _) = match hooked {
+                Some(res) => res?,
+                // SAFETY: as above.
+                None => unsafe { self.sock.recv_with_fds(&mut iovs, &mut [])? },
+            };
+            #[cfg(not(feature = "verif-hooks"))]
             // SAFETY: Safe because we own rbuf and it's safe to fill a byte array with arbitrary
             // data.
             let (bytes, _) = unsafe { self.sock.recv_with_fds(&mut iovs, &mut [])? };
